@@ -1,0 +1,36 @@
+//go:build verif
+
+// Machine-checked contracts for package tsclient (comment-only; see /verif/DESIGN.md).
+
+package tsclient
+
+//@ func (tsClient).do
+//@   property C10
+//@   ghost httpResp *http.Response = nil
+//@   ghost sent bool = false
+//@   ghost parsedBy int = 0
+//@   on call (*net/http.Client).Do(_, _) ret (r, e): httpResp = r; sent = (e == nil)
+//@   on call (*pkcs9.TimeStampReq).ParseResponse(m, b) ret (t, e): parsedBy = ite(e == nil && m == msg, 1, 0)
+//@   on call pkcs9.ParseLegacyResponse(b) ret (t, e): parsedBy = ite(e == nil, 2, 0)
+//@   ensures @token_only_from_a_checked_200_reply ret1 == nil ==> sent && httpResp.StatusCode == 200 && \
+//@        ((!req.Legacy && parsedBy == 1) || (req.Legacy && parsedBy == 2))
+//@   ensures @never_nil_nil ret1 != nil || ret0 != nil
+//@
+//@ func (tsClient).Timestamp
+//@   property C10
+//@   ghost tried int = 0
+//@   ghost lastTok *pkcs7.ContentInfoSignedData = nil
+//@   ghost lastErr error = nil
+//@   ghost hashedSig bool = false
+//@   ghost digest []byte = nil
+//@   on call invoke hash.Hash.Write(_, b) ret (n, e): hashedSig = sameslice(b, req.EncryptedDigest)
+//@   on call invoke hash.Hash.Sum(_, _) ret (s): digest = s
+//@   before call (tsClient).do(_, _, u, r, imp): assert @authorities_tried_in_configured_order u == urls[tried] && tried < len(urls) && r == req
+//@   before call (tsClient).do(_, _, u, r, imp): assert @imprint_is_digest_of_the_signature_value \
+//@        (old(req.Legacy) ==> sameslice(imp, old(req.EncryptedDigest))) && (!old(req.Legacy) ==> hashedSig && sameslice(imp, digest))
+//@   on call (tsClient).do(_, _, _, _, _) ret (t, e): tried = tried + 1; lastTok = t; lastErr = e
+//@   loop 0 sig "for _, url := range urls" invariant tried == rangeindex + 1 && -1 <= rangeindex && rangeindex < len(urls) && \
+//@        (tried > 0 ==> lastErr != nil && err == lastErr) && (tried == 0 ==> err == nil)
+//@   ensures @token_only_from_a_successful_attempt ret1 == nil ==> tried >= 1 && lastErr == nil && ret0 == lastTok
+//@   ensures @never_nil_nil ret1 != nil || ret0 != nil
+//@   ensures @all_authorities_failed_is_an_error tried >= 1 && lastErr != nil ==> ret1 != nil
